@@ -33,7 +33,11 @@ var ruleSnifferMap = &core.Rule{ID: "R12.1", Min: 4,
 		}
 		usesTok := func(cc *ssa.CallCommon) bool { return core.CalleeIs(cc, pkgHTML, "NewTokenizer") }
 		usesXML := func(cc *ssa.CallCommon) bool { return core.CalleeIs(cc, "encoding/xml", "NewDecoder") }
-		usesValid := func(cc *ssa.CallCommon) bool { return core.CalleeIs(cc, "unicode/utf8", "Valid") }
+		usesValid := func(cc *ssa.CallCommon) bool {
+			// utf8.Valid, or rune decoding by hand (whether that validates is R11.3's question)
+			g := cc.StaticCallee()
+			return g != nil && g.Pkg != nil && g.Pkg.Pkg.Path() == "unicode/utf8" && g.Name() != "FullRune"
+		}
 		reach := func(f *ssa.Function, p func(*ssa.CallCommon) bool) bool {
 			return reachesCallee(f, p, map[*ssa.Function]bool{})
 		}
